@@ -63,10 +63,14 @@ package glob
 //@   ensures [def] matched == globMatches(pattern, str)
 //@   ensures matched && len(pattern) > 0 && pattern[0] != '*' ==> agree(str, pattern, litpre(pattern))
 
+//@ ghost func parseLo(pattern string, desc bool) string
+//@ ghost func parseHi(pattern string, desc bool) string
 //@ func Parse
 //@   nopanic
 //@   uses litpre.range, litpre.lit, litpre.meta
 //@   ensures result != nil && len(result.Limits) == 2
+// Parse is a function of its arguments: parseLo/parseHi name the limits it returns (definition, not an obligation)
+//@   ensures [ghost-def.limits] result.Limits[0] == parseLo(pattern, desc) && result.Limits[1] == parseHi(pattern, desc)
 //@   ensures [limits] allstr(s, len(pattern) > 0 && pattern[0] != '*' && agree(s, pattern, litpre(pattern)) ==> inLimits(result.Limits[0], result.Limits[1], desc, s))
 //@   loop 1 invariant n == i && i <= len(pattern) && forall(j, 0, i, pattern[j] != '[' && pattern[j] != '*' && pattern[j] != '?' && pattern[j] != '\\')
 //@   loop 2 invariant b == a || slt(b, a)
